@@ -2,5 +2,8 @@ package filter
 
 type Filter interface {
 	ApplyFilter(filterStr string, data map[string]any) (map[string]any, error)
+	// ApplyFilterJSON returns every output of the filter as a compact JSON
+	// document, one per line (like `jq -c`), whatever its type is.
+	ApplyFilterJSON(filterStr string, data map[string]any) ([]byte, error)
 	FilterInfo() string
 }
